@@ -145,8 +145,8 @@ v("C10", "setRoot-adopts-owned-root", "fire", T,
   "        if root.getOwner() is not None:\n            root = deepcopy(root.copy(preserve_owner=False))\n",
   "", "C10.R4")
 v("C10", "iterRangeShape-inserts", "fire", I,
-  "        p = self.getPayload(c)\n        yield CoordPayload(c, p)",
-  "        p = self.getPayloadRef(c)\n        yield CoordPayload(c, p)", "C10.R1")
+  "        p = self.getPayload(c)\n\n        # Keep the current point",
+  "        p = self.getPayloadRef(c)\n\n        # Keep the current point", "C10.R1")
 v("C10", "swizzle-no-copy", "fire", T,
   "        copied = copy.deepcopy(self)\n\n        if old_rank_ids == rank_ids:",
   "        copied = self\n\n        if old_rank_ids == rank_ids:")
@@ -358,8 +358,8 @@ v("C07", "iterShapeRef-not-ref", "fire", I,
   "    return self.iterRangeShapeRef(0, self.getShape(all_ranks=False), tick=tick)",
   "    return self.iterRangeShape(0, self.getShape(all_ranks=False), tick=tick)", "C07.R1")
 v("C07", "iterRangeShape-inserts", "fire", I,
-  "        p = self.getPayload(c)\n        yield CoordPayload(c, p)",
-  "        p = self.getPayloadRef(c)\n        yield CoordPayload(c, p)", "C07.R2")
+  "        p = self.getPayload(c)\n\n        # Keep the current point",
+  "        p = self.getPayloadRef(c)\n\n        # Keep the current point", "C07.R2")
 v("C07", "iterRangeShapeRef-no-insert", "fire", I,
   "        p = self.getPayloadRef(c)\n        yield CoordPayload(c, p)",
   "        p = self.getPayload(c)\n        yield CoordPayload(c, p)", "C07.R2")
@@ -869,3 +869,9 @@ seed("C17", "C17-b", "C17.R6")
 seed("C18", "C18-b", "C18.R1")
 seed("C19", "C19-b", "C19.R2")
 seed("C20", "C20-b", "C20.R5")
+
+v("C16", "iterRangeShape-drops-point-refresh", "fire", I,
+  "        if is_collecting and tick:\n            Metrics.addUse(rank, c, c, type_=None)\n\n", "", "C16.R4")
+v("C16", "iterRange-point-refresh-conditional", "fire", I,
+  "                if is_collecting and tick:\n                    Metrics.addUse(rank, coord, i + j)",
+  "                if is_collecting and tick and start_pos is None:\n                    Metrics.addUse(rank, coord, i + j)", "C16.R4")
